@@ -152,10 +152,14 @@ def replay_graph(ctx, cfgname, budget, label):
     models = {nid: RP.norm_model(st) for nid, st in g.nodes.items()}
     all_edges = [(s, lab, t) for s, es in g.edges.items() for (lab, t) in es]
     tree = [(p[0], p[1], n) for n, p in parent.items() if p is not None]
-    sel = set(tree)
+    top = max(level.values())
+    # everything up to the last-but-one level is executed (so every state with successors is materialised and
+    # every transition between them taken); transitions into the last level are sampled up to the budget
+    sel = {e for e in all_edges if level[e[0]] < top - 1} | {e for e in tree if level[e[2]] < top}
     rest = sorted(set(all_edges) - sel)
     ctx.rng.shuffle(rest)
     if not git_available():
+        sel = {e for e in sel if e in tree or ('"git"' not in e[1] and not e[1].startswith("RepackG"))}
         rest = [e for e in rest if '"git"' not in e[1] and not e[1].startswith("RepackG")]
     sel |= set(rest[:max(0, budget - len(sel))])
     has_out = {n: any((n, lab, t) in sel for lab, t in g.edges.get(n, [])) for n in g.nodes}
@@ -188,7 +192,7 @@ def replay_graph(ctx, cfgname, budget, label):
                         key = json.dumps([res["real"], res["ans_n"]], sort_keys=True)
                         records.setdefault(key, (res["real"], res["ans_n"], path))
     ctx.log(f"{label}: {len(g.nodes)} states, {len(all_edges)} transitions; executed {nexec} transitions "
-            f"({len(tree)} tree edges = every state materialised) in {time.time() - t0:.0f}s; "
+            f"(all {sum(1 for e in all_edges if level[e[0]] < top - 1)} up to depth {top - 1}, the rest sampled) in {time.time() - t0:.0f}s; "
             f"{len(records)} distinct (state, answers) records")
     ctx.cov.setdefault("graph_replay", []).append(
         {"config": cfgname, "states": len(g.nodes), "transitions": len(all_edges), "executed": nexec,
@@ -198,7 +202,7 @@ def replay_graph(ctx, cfgname, budget, label):
 
 
 # --------------------------------------------------------------------------- behaviours (counterexamples, walks)
-def run_behaviour(ctx, labels, models, seed=0, who_seq=None):
+def run_behaviour(ctx, labels, models, seed=0, who_seq=None, opts=None, strict_shape=True):
     """Execute a whole behaviour from the empty repository; returns per-step results."""
     root = ctx.tmpdir("beh")
     scratch = ctx.tmpdir("behs")
@@ -207,9 +211,9 @@ def run_behaviour(ctx, labels, models, seed=0, who_seq=None):
     src_ans = None
     for k, lab in enumerate(labels):
         res = RP.step(root, scratch, models[k], lab, models[k + 1], src_ans, seed=seed,
-                      who=(who_seq[k] if who_seq else None), light=False)
+                      who=(who_seq[k] if who_seq else None), opts=opts, light=False)
         out.append(res)
-        if res["shape"] or res["ans"] is None:
+        if res["ans"] is None or (strict_shape and res["shape"]):
             break
         src_ans = res["ans"]
     shutil.rmtree(root, ignore_errors=True)
@@ -236,15 +240,20 @@ def defect_replays(ctx, futs):
         labels = [l for l in labels]
         models = [RP.norm_model(st) for _, st in res.error_trace]
         confirmed = []
-        # both ways of performing each step: by the long-lived reader itself, by somebody else
+        # every way of performing the steps: by the long-lived reader itself / by somebody else, x the
+        # equivalent ways of writing each file.  The defect model describes a design the code should NOT
+        # have, so a real directory that differs from it is not drift.
         for whos in ("w", "x"):
-            steps = run_behaviour(ctx, labels, models, seed=ctx.seed, who_seq=whos * len(labels))
-            ctx.count(len(steps))
-            for k, r in enumerate(steps):
-                report(ctx, r, labels[:k + 1], models[k + 1], {"defect_model": name})
-                if not r["shape"]:
-                    ctx.validated()
-                confirmed += [f"{c}|{q}|{cause}" for (_, c, q, cause, _) in r["viol"]]
+            for opts in range(4):
+                steps = run_behaviour(ctx, labels, models, seed=ctx.seed, who_seq=whos * len(labels), opts=opts,
+                                      strict_shape=False)
+                ctx.count(len(steps))
+                for k, r in enumerate(steps):
+                    r["shape"] = [x for x in r["shape"] if x.startswith(("action raised", "unprojectable", "harness"))]
+                    report(ctx, r, labels[:k + 1], models[k + 1], {"defect_model": name})
+                    if not r["shape"]:
+                        ctx.validated()
+                    confirmed += [f"{c}|{q}|{cause}" for (_, c, q, cause, _) in r["viol"]]
         ctx.nontrivial(("defect", name, tuple(labels)))
         summary[name] = {"counterexample": labels, "real_code_shows": sorted(set(confirmed))}
         ctx.log(f"defect model {name}: TLC counterexample {labels} -> real code: "
